@@ -58,7 +58,11 @@ func runBounded(repo, prop string, specs []BoundedSpec) (res []BoundedResult, li
 		if fname == "" {
 			fname = "zz_bounded_verif_test.go"
 		}
-		src := filepath.Join("/verif/bounded", strings.ReplaceAll(sp.Pkg, "/", "_"), fname)
+		dirName := strings.ReplaceAll(sp.Pkg, "/", "_")
+		if sp.Pkg == "." {
+			dirName = "root"
+		}
+		src := filepath.Join("/verif/bounded", dirName, fname)
 		dir, err := os.MkdirTemp("", "govc-bounded")
 		if err != nil {
 			r.Status = "unavailable"
@@ -99,7 +103,7 @@ func runBounded(repo, prop string, specs []BoundedSpec) (res []BoundedResult, li
 			r.Status = "failed"
 			violations++
 			os.MkdirAll("/verif/replay/"+prop, 0o755)
-			path := fmt.Sprintf("/verif/replay/%s/bounded_%s_%s.json", prop, strings.ReplaceAll(sp.Pkg, "/", "_"), sp.Run)
+			path := fmt.Sprintf("/verif/replay/%s/bounded_%s_%s.json", prop, dirName, sp.Run)
 			rec := map[string]any{
 				"property": prop, "kind": "bounded stand-in (execution of the real code on a finite grid)",
 				"stand_in": sp, "families": r.Families, "failing_inputs": r.FirstFailures,
